@@ -1154,7 +1154,21 @@ func (fr *Frame) evalCall(x *SCall, ctx *specCtx) SV {
 	if g.pureHeap[pf.Pkg+"."+pf.Name] && ctx.st != nil && g.entry != nil && !ctx.assumed && ctx.kind != ctxCallPost && ctx.kind != ctxPre {
 		if d := ctx.st.heap.dirtyFor(g.pureKeys[pf.Pkg+"."+pf.Name]); d != "" && d != "false" {
 			// the function is defined over the entry heap: its use here is only meaningful if the heap is unchanged
-			g.oblige("heapframe", pf.Name, ctx.oblPath(), not(d), "opaque specification function "+pf.Name+" is used where the heap must still equal the entry heap")
+			// (on the objects that existed at entry, for the fields the function reads)
+			var fs []string
+			top0 := g.entry.heap.get(g, g.topKey())
+			for _, k := range g.pureKeys[pf.Pkg+"."+pf.Name] {
+				if strings.HasPrefix(k, "G:") || !ctx.st.heap.maybeDirty(k) {
+					continue
+				}
+				cur, old := ctx.st.heap.get(g, k), g.entry.heap.get(g, k)
+				if cur == old {
+					continue
+				}
+				r := g.fresh("fr")
+				fs = append(fs, "(forall (("+r+" Int)) (! (=> (<= "+r+" "+top0+") (= (select "+cur+" "+r+") (select "+old+" "+r+"))) :pattern ((select "+cur+" "+r+"))))")
+			}
+			g.oblige("heapframe", pf.Name, ctx.oblPath(), implies(d, and(fs...)), "opaque specification function "+pf.Name+" is used where the heap must still equal the entry heap")
 		}
 	}
 	var args []string
